@@ -5,6 +5,7 @@
 //! the call-site clauses.  `search` enumerates tapes exhaustively up to a length; it never decides a
 //! property, it only supplies a concrete failing history for a violation the verifier reported.
 mod threads;
+mod interval;
 use callbag::{Message, Source};
 use std::panic::{catch_unwind, AssertUnwindSafe};
 use std::sync::{Arc, Mutex};
@@ -46,6 +47,8 @@ struct World {
     resub: bool, // the second subscription of the same source value is running (scenario suffix R)
     cross: bool, // another member may act from inside a member's handler (members coupled behind the scenes)
     ending: bool, // a source is inside the call that delivers its Terminate / Error
+    tasks: Vec<interval::Task>, // scenario interval: the tasks the puppet nursery accepted (one per subscription)
+    cur_task: Option<usize>, refused: bool, ticks: u32, live_ticks: u32,
 }
 struct SrcState { st: SrcSt, sink: Option<Sink>, subs: u32, err: Option<String>, name: String, emitted: u32, pulls: u32, answers: u32, greet_pulls: Option<u32> }
 struct SinkState { st: SinkSt, tb: Option<Tb>, data: Vec<u32>, err: Option<String>, name: String, pulls: u32, attach_at: usize, during_end: bool }
@@ -277,6 +280,8 @@ fn puppet_sink(w: &W, k: usize) -> Sink {
         match (&m, st) {
             (Message::Handshake(_), SinkSt::NotGreeted) => {}
             (Message::Handshake(_), _) => violate(&w, "C01", format!("{} greeted twice", name)),
+            // (C01 / C16: the single Error with which interval refuses a subscription whose task cannot be spawned)
+            (Message::Error(_), SinkSt::NotGreeted) if w.lock().unwrap().refused => {}
             (_, SinkSt::NotGreeted) => violate(&w, "C01", format!("{} received {} before its handshake", name, desc)),
             (_, SinkSt::Ended) => violate(&w, "C02", format!("{} received {} after its terminating message", name, desc)),
             (_, SinkSt::Disposed) => violate(&w, "C03", format!("{} received {} after it disposed", name, desc)),
@@ -287,7 +292,7 @@ fn puppet_sink(w: &W, k: usize) -> Sink {
             Message::Data(v) => { w.lock().unwrap().sinks[k].data.push(v); sink_react(&w, k); }
             Message::Pull => violate(&w, "C04", format!("{} was pulled by its source", name)),
             Message::Terminate => { { let mut g = w.lock().unwrap(); if g.sinks[k].st == SinkSt::Live { g.sinks[k].st = SinkSt::Ended; } } cross_sink(&w, k); }
-            Message::Error(e) => { { let mut g = w.lock().unwrap(); if g.sinks[k].st == SinkSt::Live { g.sinks[k].st = SinkSt::Ended; g.sinks[k].err = Some(e.to_string()); } } cross_sink(&w, k); }
+            Message::Error(e) => { { let mut g = w.lock().unwrap(); if g.sinks[k].st == SinkSt::Live || (g.refused && g.sinks[k].st == SinkSt::NotGreeted) { g.sinks[k].st = SinkSt::Ended; g.sinks[k].err = Some(e.to_string()); } } cross_sink(&w, k); }
         }
     }).into())
 }
@@ -323,6 +328,7 @@ fn quiescent_checks(w: &W, single_sink: bool) {
 /// the list function an operator scenario should compute (C07..C11), checked at quiescence:
 /// what the sink has received must be a prefix of it, and equal to it while the sink is still live
 fn functional_checks(w: &W, op: &str) {
+    if op.starts_with("interval") { interval::checks(w); return; }
     let g = w.lock().unwrap();
     if g.sinks.is_empty() { return; }
     let sink = &g.sinks[0];
@@ -440,6 +446,7 @@ fn build(op: &str, sel: &Sel, worlds: &[W]) -> Source<u32> {
         "concat3" => callbag::concat!(mk("a"), mk("b"), mk("c")),
         "combine2" => callbag::map(|(x, y): (u32, u32)| x * 1000 + y)(callbag::combine!(mk("a"), mk("b"))),
         "from_iter" => callbag::from_iter([1u32, 2, 3]),
+        "interval" => callbag::map(|x: usize| x as u32)(callbag::interval(std::time::Duration::from_millis(1), interval::PuppetNursery { sel: sel.clone() })),
         "flatten" => {
             // the outer is a puppet whose data are fresh puppet inner sources
             let outer = mk("outer");
@@ -499,6 +506,32 @@ fn run_single(op: &str, tape: &[u8], val_base: u32) -> Outcome {
             w.lock().unwrap().attach_hook = None;
             return;
         }
+        if op.starts_with("for_each") {
+            // the crate's sink over a puppet source: f records its arguments; for_each asks for the next item when it
+            // is greeted and after every item, and never talks to a source that is over
+            let j = new_source(&w, "a");
+            let seen: Arc<Mutex<Vec<u32>>> = Arc::new(Mutex::new(vec![]));
+            log(&w, "for_each subscribes".into());
+            callbag::for_each({ let (seen, w) = (seen.clone(), w.clone()); move |x: u32| { log(&w, format!("f({})", x)); seen.lock().unwrap().push(x); } })(puppet_source(&w, j));
+            let check = |w: &W| {
+                let g = w.lock().unwrap();
+                let sent: Vec<u32> = g.emitted.iter().map(|e| e.1).collect();
+                let mut v = vec![];
+                if *seen.lock().unwrap() != sent { v.push(("C06", format!("f was called on {:?}, the source sent {:?}", seen.lock().unwrap(), sent))); }
+                if g.srcs[0].st == SrcSt::Live && g.srcs[0].pulls != g.srcs[0].emitted + 1 { v.push(("C06", format!("for_each has sent {} Pulls for a greeting and {} items", g.srcs[0].pulls, g.srcs[0].emitted))); v.push(("C04", format!("for_each has sent {} Pulls for a greeting and {} items", g.srcs[0].pulls, g.srcs[0].emitted))); }
+                drop(g);
+                for (p, what) in v { violate(w, p, what); }
+            };
+            check(&w);
+            for _ in 0..64 {
+                let c = choose(&w, 2);
+                if c == 0 { break; }
+                let st = w.lock().unwrap().srcs[0].st;
+                if st == SrcSt::Pending { src_greet(&w, 0); } else { src_event(&w, 0, false); }
+                check(&w);
+            }
+            return;
+        }
         let sel: Sel = { let w = w.clone(); Arc::new(move || w.clone()) };
         let source = build(op, &sel, &[w.clone()]);
         let mut resubscribed = false;
@@ -508,7 +541,7 @@ fn run_single(op: &str, tape: &[u8], val_base: u32) -> Outcome {
         quiescent_checks(&w, true);
         functional_checks(&w, op);
         for _ in 0..64 {
-            let n = w.lock().unwrap().srcs.len();
+            let n = n_actors(&w);
             let c = choose(&w, 2 + n);
             if c == 0 { break; }
             top_level_action(&w, c);
@@ -540,12 +573,14 @@ fn run_single(op: &str, tape: &[u8], val_base: u32) -> Outcome {
     let exhausted = ts.lock().unwrap_or_else(|e| e.into_inner()).exhausted_opts;
     let out = Outcome { violations: g.violations.clone(), log: g.log.clone(), exhausted, panicked };
     // (the peers hold each other through the world: break the cycles so that a run frees its memory)
-    g.srcs.clear(); g.sinks.clear(); g.attach_hook = None; g.nested_sub = None;
+    g.srcs.clear(); g.sinks.clear(); g.tasks.clear(); g.attach_hook = None; g.nested_sub = None;
     out
 }
 /// top-level decision c >= 1 of one world: 1 = the sink acts, 2 + j = source j acts (greets, if its greeting is due)
+fn n_actors(w: &W) -> usize { let g = w.lock().unwrap(); g.srcs.len() + g.tasks.len() }
 fn top_level_action(w: &W, c: usize) {
     if c == 1 { sink_action(w, 0, false); }
+    else if c - 2 >= w.lock().unwrap().srcs.len() { let t = c - 2 - w.lock().unwrap().srcs.len(); interval::tick(w, t); }
     else {
         let j = c - 2;
         let st = w.lock().unwrap().srcs[j].st;
@@ -585,8 +620,8 @@ fn run_overlap(op_full: &str, tape: &[u8]) -> Outcome {
         ts.lock().unwrap().quiet = false;
         checks(&ws);
         for _ in 0..64 {
-            let n0 = ws[0].lock().unwrap().srcs.len();
-            let (sub1, n1) = { let g = ws[1].lock().unwrap(); (!g.sinks.is_empty(), g.srcs.len()) };
+            let n0 = n_actors(&ws[0]);
+            let (sub1, n1) = { let g = ws[1].lock().unwrap(); (!g.sinks.is_empty(), g.srcs.len() + g.tasks.len()) };
             let opts1 = if sub1 { 1 + n1 } else { 1 };
             let c = choose_meta(&ts, 1 + (1 + n0) + opts1);
             if c == 0 { break; }
@@ -623,7 +658,7 @@ fn run_overlap(op_full: &str, tape: &[u8]) -> Outcome {
         }
     }
     if let Some(p) = &panicked { violations.push(("C17".into(), format!("panic: {}", p))); }
-    for w in &ws { let mut g = w.lock().unwrap_or_else(|e| e.into_inner()); g.srcs.clear(); g.sinks.clear(); }
+    for w in &ws { let mut g = w.lock().unwrap_or_else(|e| e.into_inner()); g.srcs.clear(); g.sinks.clear(); g.tasks.clear(); }
     let exhausted = ts.lock().unwrap_or_else(|e| e.into_inner()).exhausted_opts;
     Outcome { violations, log: lg, exhausted, panicked }
 }
@@ -677,8 +712,47 @@ fn collect(op: &str, excl: &[String], max_len: usize, budget: &mut u64, prefix: 
         }
     }
 }
+/// C20: a subscriber that enables every span and event and formats every field, so that every argument expression of
+/// every trace line is evaluated
+#[cfg(feature = "tracing")]
+mod all_on {
+    use std::sync::atomic::{AtomicU64, Ordering};
+    use tracing::{field::{Field, Visit}, span, Event, Metadata, Subscriber};
+    pub struct AllOn(pub AtomicU64);
+    struct V;
+    impl Visit for V { fn record_debug(&mut self, _: &Field, v: &dyn std::fmt::Debug) { let _ = format!("{:?}", v); } }
+    impl Subscriber for AllOn {
+        fn enabled(&self, _: &Metadata<'_>) -> bool { true }
+        fn new_span(&self, a: &span::Attributes<'_>) -> span::Id { a.record(&mut V); span::Id::from_u64(self.0.fetch_add(1, Ordering::SeqCst) + 1) }
+        fn record(&self, _: &span::Id, r: &span::Record<'_>) { r.record(&mut V); }
+        fn record_follows_from(&self, _: &span::Id, _: &span::Id) {}
+        fn event(&self, e: &Event<'_>) { e.record(&mut V); }
+        fn enter(&self, _: &span::Id) {}
+        fn exit(&self, _: &span::Id) {}
+    }
+    pub fn install() { let _ = tracing::subscriber::set_global_default(AllOn(AtomicU64::new(0))); }
+}
+/// `replay sig`: one line per tape of the enumeration: the tape and a hash of what the peers saw (C20 compares the
+/// output of the plain build with the output of the build with the `tracing` feature)
+fn sig(op: &str, max_len: usize, budget: &mut u64, prefix: &mut Vec<u8>, out: &mut dyn std::io::Write) {
+    if *budget == 0 { return; }
+    *budget -= 1;
+    let o = run(op, prefix);
+    use std::hash::{Hash, Hasher};
+    let mut h = std::collections::hash_map::DefaultHasher::new();
+    for l in o.log.iter().filter(|l| !l.starts_with("!!")) { l.hash(&mut h); }
+    o.panicked.hash(&mut h);
+    let _ = writeln!(out, "{}\t{:016x}", serde_json::to_string(prefix).unwrap(), h.finish());
+    if let Some(n) = o.exhausted {
+        if prefix.len() < max_len {
+            for c in 0..n as u8 { prefix.push(c); sig(op, max_len, budget, prefix, out); prefix.pop(); }
+        }
+    }
+}
 fn main() {
     std::panic::set_hook(Box::new(|_| {}));
+    #[cfg(feature = "tracing")]
+    all_on::install();
     let a: Vec<String> = std::env::args().collect();
     let out = |tape: &[u8], o: &Outcome, runs: u64| {
         println!("{}", serde_json::json!({ "tape": tape, "violations": o.violations.iter().map(|(p, w)| serde_json::json!({"property": p, "what": w})).collect::<Vec<_>>(), "history": o.log, "panicked": o.panicked, "runs": runs }));
@@ -720,6 +794,17 @@ fn main() {
             let h: serde_json::Map<String, serde_json::Value> = hits.iter().map(|(p, (t, o))| (p.clone(), serde_json::json!({"tape": t, "violations": o.violations.iter().map(|(p, w)| serde_json::json!({"property": p, "what": w})).collect::<Vec<_>>(), "history": o.log}))).collect();
             println!("{}", serde_json::json!({"hits": h, "runs": total - budget, "budget_exhausted": budget == 0, "max_len": len}));
             std::process::exit(if hits.is_empty() { 0 } else { 1 });
+        }
+        Some("sig") => {
+            // replay sig <scenario> [--len N] [--budget N]
+            let op = &a[2];
+            let mut len = 9usize; let mut budget: u64 = 300_000;
+            let mut i = 3;
+            while i + 1 < a.len() { match a[i].as_str() { "--len" => len = a[i + 1].parse().unwrap(), "--budget" => budget = a[i + 1].parse().unwrap(), _ => {} } i += 2; }
+            let stdout = std::io::stdout();
+            let mut w = std::io::BufWriter::new(stdout.lock());
+            sig(op, len, &mut budget, &mut vec![], &mut w);
+            std::process::exit(0);
         }
         Some("threads") => {
             // replay threads block combine2 | replay threads stress <take1|take2|merge2|merge3|combine2> <runs>
